@@ -13,8 +13,10 @@ class FuelExhausted(BaseException):
 
 
 class CappedPred(Pred):
+    fuel = FUEL
+
     def __call__(self, ca, t):
-        if len(self.calls) >= FUEL:
+        if len(self.calls) >= self.fuel:
             raise FuelExhausted()
         return super().__call__(ca, t)
 
@@ -25,6 +27,12 @@ def gen(ctx):
                memo="False", pred="never", fuel=FUEL)
     yield dict(kind="ev2", hist=[[[0, 0], [0, 0]], [[0, 1], [1, 0]]], dtype="int32", scale=1, r=1, nb="vn", rule="hash:2:3:1:0",
                memo="recursive_lit", pred="steps:0", fuel=FUEL)
+    for K in ([33, 66, 130] if ctx.tier == "quick" else [31, 32, 33, 63, 64, 65, 66, 127, 128, 129, 130]):
+        for H in (1, 3):
+            R, C = rng.choice([(2, 3), (3, 3), (1, 4)])
+            yield dict(kind="ev2", hist=[[[rng.randrange(2) for _ in range(C)] for _ in range(R)] for _ in range(H)], dtype="int32", scale=1,
+                       r=1, nb=rng.choice(["moore", "vn"]), rule="hash:2:3:1:0", memo=rng.choice(["False", "True", "recursive_lit"]),
+                       pred="steps:%d" % K, fuel=K + 5)
     for _ in range(ctx.n(250, 2500)):
         c = c04.rand_case(rng, memos=["False", "True", "recursive_lit"], maxdim=5)
         c.pop("T", None)
@@ -53,6 +61,7 @@ def line(c):
 
 
 def run_capped(c):
+    CappedPred.fuel = c.get("fuel", FUEL)
     try:
         run = ev2.run_impl(c, pred_cls=CappedPred)
     except FuelExhausted:
